@@ -28,6 +28,22 @@ def run():
         _quiet(lambda: chords.triads(k))
         _quiet(lambda: chords.sevenths(k))
         _quiet(lambda: progressions.to_chords(["I", "bVII7", "#ivdim7", "V7"], k))
+    # the caller edits what it was handed (second request: the warm path of every memo)
+    for k in ("C", "a", "Gb"):
+        for fn in (keys.get_notes, keys.get_key_signature_accidentals, chords.triads, chords.sevenths):
+            x = _quiet(lambda: fn(k))
+            if isinstance(x, list):
+                _quiet(lambda: x.reverse())
+                _quiet(lambda: x.append("X"))
+                if x and isinstance(x[0], list):
+                    _quiet(lambda: x[0].append("X"))
+        for name in ("tonic", "V", "ii7", "subdominant7"):
+            y = _quiet(lambda: getattr(chords, name)(k))
+            if isinstance(y, list):
+                _quiet(lambda: y.append("X"))
+        z = _quiet(lambda: progressions.to_chords(["I", "V", "I"], k))
+        if isinstance(z, list) and z and isinstance(z[0], list):
+            _quiet(lambda: z[0].append("X"))
     for bad in ("H", "G#", "", "c#m"):
         _quiet(lambda: keys.get_notes(bad))
         _quiet(lambda: chords.triads(bad))
